@@ -699,7 +699,7 @@ theorem gx_runFrame (p : Prog) (hh : Hist) {s0 : St} {f : Frame} {rest : List Fr
       refine quiet _ ?_ (fun x => ?_)
       · have := arcSame_enqueue ({ s0 with stack := rest } : St) a
         exact ⟨this.rc, this.tbl, this.dsp, this.ent, this.trk, this.next, this.sigs⟩
-      · simp [queueH, hs, frameH, St.push, cmdsH_enqueue]
+      · split <;> simp [queueH, hs, frameH, St.push, cmdsH_enqueue]
   | topActs t i =>
     simp only [runFrame, doTopActs]
     split
